@@ -38,6 +38,29 @@ pub fn one(ctx: &mut Ctx, input: &str, ext_bits: u32) {
             return;
         }
     }
+    // FRAGMENT level (`C05_fragments_as_worded`, stronger than the property, hence counted and printed, never a
+    // violation): every letter or digit outside comments lies inside ONE fragment of a text an event carries, or
+    // inside the span of a component's modifiers or of its quantity value (a text value has no fragments in the
+    // implementation's event: its span is taken).
+    let mut carried = vec![false; input.len() + 1];
+    for e in &evs {
+        let mut spans = Vec::new(); let mut frags = Vec::new();
+        if matches!(e, Event::Error(_) | Event::Warning(_)) { continue; }
+        event_spans(e, &mut spans, &mut frags);
+        for (off, text) in frags { for i in off..(off + text.len()).min(input.len()) { carried[i] = true; } }
+        for (what, s) in spans {
+            if what.ends_with(".modifiers") || what.ends_with("quantity.value") {
+                for i in s.start()..s.end().min(input.len()) { carried[i] = true; }
+            }
+        }
+    }
+    match input.char_indices().find(|&(i, c)| c.is_alphanumeric() && !comment[i] && !carried[i]) {
+        None => ctx.count("fragment level: every letter/digit outside comments is carried by an event"),
+        Some((i, c)) => {
+            ctx.count("FRAGMENT-LEVEL-NOT-CARRIED (model theorem C05_fragments_as_worded says this cannot happen)");
+            eprintln!("c05: fragment level: {c:?} at byte {i} is in no fragment / modifiers / value span: {desc}");
+        }
+    }
 }
 
 /// The independent comment scanner of `Lemmas/CoverAudit.lean` (`cscan`): one flag per byte of `body`.
